@@ -463,6 +463,31 @@ func (e *Engine) assemble(p *Path, bytes []Value, w int, little, signed bool) *I
 	return e.fixLin(p, out)
 }
 
+// readFails decides (forking when FailReads is set) whether this transport read ends early; short is then the number
+// of bytes it delivered, 0 <= short < want (<= want when want may be 0).
+func (e *Engine) readFails(p *Path, want *Lin, at ssa.Instruction) (fails bool, short *Int) {
+	if !e.FailReads {
+		return false, nil
+	}
+	p.readSeq++
+	pos := e.P.InstrPos(at)
+	key := fmt.Sprintf("transport read #%d at %s delivers everything", p.readSeq, pos)
+	if p.decide(&Bool{Pred: &Pred{Key: key}}, pos) {
+		return false, nil
+	}
+	a := fmt.Sprintf("short#%d", p.readSeq)
+	p.DeclareAtom(a, 62, 0, 1<<62-1)
+	k := p.SymInt(a, 64, true)
+	if want != nil {
+		if p.Prove(want.Add(LConst(-1))) {
+			p.AssumeLin(want.Add(LConst(-1)).Sub(LAtom(a)))
+		} else {
+			p.AssumeLin(want.Sub(LAtom(a)))
+		}
+	}
+	return true, k
+}
+
 func (e *Engine) intrinsic(p *Path, fr *Frame, name string, fn *ssa.Function, args []Value, at ssa.Instruction) (Value, bool) {
 	nilErr := &NilV{}
 	switch name {
@@ -501,6 +526,10 @@ func (e *Engine) intrinsic(p *Path, fr *Frame, name string, fn *ssa.Function, ar
 			p.note("io.CopyN not interpretable at %s", e.P.InstrPos(at))
 			return okTuple(TopInt(64, true), &TopV{"err"}), true
 		}
+		if fails, k := e.readFails(p, n, at); fails {
+			dst.Segs = append(dst.Segs, Seg{Blob: fmt.Sprintf("?partial#%d", p.readSeq), Len: k.Lin})
+			return okTuple(k, &ErrV{"transport read failed"}), true
+		}
 		segs, ok := p.take(src, n)
 		if !ok {
 			p.abort("io.CopyN: cannot take %s bytes from stream %s at %s", n, src.Name, e.P.InstrPos(at))
@@ -514,6 +543,10 @@ func (e *Engine) intrinsic(p *Path, fr *Frame, name string, fn *ssa.Function, ar
 		if src == nil || !ok {
 			p.note("io.ReadFull not interpretable at %s", e.P.InstrPos(at))
 			return okTuple(TopInt(64, true), &TopV{"err"}), true
+		}
+		if fails, k := e.readFails(p, buf.Len, at); fails {
+			p.replaceWindow(buf.Obj, buf.Off, buf.Len, []Seg{{Blob: fmt.Sprintf("?partial#%d", p.readSeq), Len: buf.Len}})
+			return okTuple(k, &ErrV{"transport read failed"}), true
 		}
 		segs, ok := p.take(src, buf.Len)
 		if !ok {
@@ -539,6 +572,9 @@ func (e *Engine) intrinsic(p *Path, fr *Frame, name string, fn *ssa.Function, ar
 		w, signed, ok := typeWidth(et)
 		if !ok {
 			return &TopV{"err"}, true
+		}
+		if fails, _ := e.readFails(p, LConst(int64(w/8)), at); fails {
+			return &ErrV{"transport read failed"}, true
 		}
 		segs, ok := p.take(src, LConst(int64(w/8)))
 		if !ok {
